@@ -95,6 +95,10 @@ type Req struct {
 	SkewSec   int          `json:"skew_sec,omitempty"` // signing clock minus server clock
 	Chunks    []int        `json:"chunks,omitempty"`   // streaming: data chunk sizes, cycled until the payload is used up
 	Trailer   string       `json:"trailer,omitempty"`  // crc32 | crc32c | crc64nvme | sha1 | sha256
+	// TrailerDeclCase: spelling of the x-amz-trailer header VALUE (the declared trailer name): "" lower case
+	// (what the SDKs send) | "mixed" (X-Amz-Checksum-Crc32) | "upper". Header names are case-insensitive, so
+	// every spelling declares the same trailer; the trailer line in the body stays lower case.
+	TrailerDeclCase string `json:"trailerDeclCase,omitempty"`
 	Framing   string       `json:"framing,omitempty"`  // trailer framing: sdk (trailer right after the 0 chunk line) | doc (blank line first)
 	TE        bool         `json:"te,omitempty"`       // unknown length: Transfer-Encoding: chunked, content-length not signed
 	Encoding2 string       `json:"encoding2,omitempty"` // second content coding after aws-chunked, e.g. gzip
@@ -452,7 +456,7 @@ func Build(q Req, now time.Time) (*Wire, *Signed, error) {
 		hdr.Set("Content-Encoding", joinEnc("aws-chunked", q.Encoding2))
 		hdr.Set("X-Amz-Decoded-Content-Length", strconv.Itoa(len(payload)))
 		hdr.Set("X-Amz-Content-Sha256", shaUnsignedTrailer)
-		hdr.Set("X-Amz-Trailer", "x-amz-checksum-"+q.Trailer)
+		hdr.Set("X-Amz-Trailer", declCase("x-amz-checksum-"+q.Trailer, q.TrailerDeclCase))
 		body := EncodeChunked(payload, q.Chunks, false, nil, "", "", "", q.Trailer, false, q.Framing, s)
 		w := &Wire{Method: q.Method, Path: u.EscapedPath(), RawQuery: u.RawQuery, Host: q.Host, Header: hdr, TE: q.TE}
 		w.Header.Set("User-Agent", "verif-harness")
@@ -535,7 +539,7 @@ func Build(q Req, now time.Time) (*Wire, *Signed, error) {
 		trailer := ""
 		if q.Mode != ModeStream {
 			trailer = q.Trailer
-			hdr.Set("X-Amz-Trailer", "x-amz-checksum-"+q.Trailer)
+			hdr.Set("X-Amz-Trailer", declCase("x-amz-checksum-"+q.Trailer, q.TrailerDeclCase))
 		}
 		// the encoded length does not depend on the signatures: encode once with a dummy seed to learn it
 		dummy := EncodeChunked(payload, q.Chunks, q.Mode != ModeUnsignedTrailer, s.SigningKey, s.Timestamp, s.Scope, strings.Repeat("0", 64), trailer, q.Mode == ModeStreamTrailer, q.Framing, nil)
@@ -743,4 +747,21 @@ func OversizeChunk(body []byte, c ChunkPos, keepLen bool) ([]byte, bool) {
 		return nb[:total], true
 	}
 	return nil, false
+}
+
+// declCase respells a header name that is sent as a header value.
+func declCase(name, how string) string {
+	switch how {
+	case "upper":
+		return strings.ToUpper(name)
+	case "mixed":
+		parts := strings.Split(name, "-")
+		for i, p := range parts {
+			if p != "" {
+				parts[i] = strings.ToUpper(p[:1]) + p[1:]
+			}
+		}
+		return strings.Join(parts, "-")
+	}
+	return name
 }
